@@ -133,6 +133,70 @@ def start_change_stop(versions, fmts):
     return fn
 
 
+H_KINDS = ["node-presentation", "child-presentation", "set", "id-request", "battery", "save-tick"]
+
+
+def history_stop(versions, fmts, k):
+    """Bounded histories from the empty gateway through the public API, periodic save ticks at
+    arbitrary positions, ended by stop(); the next start must reproduce the final state."""
+    def fn(w):
+        version = w.pick(versions, "version")
+        fmt = w.pick(fmts, "format")
+        fs = P.make_fs(w, fmt)
+        with fs.installed():
+            g = P.pgateway(w, version, fmt)
+            pers = g.gw.tasks.persistence
+            ok_types = C.str_rule_types(version)
+            w.info = {"version": version, "format": fmt, "events": []}
+            try:
+                w.call(g.gw.start_persistence)  # nothing on disk yet: empty network, first tick
+            except Exception as exc:
+                w.escaped(exc, "start_persistence raised")
+            for i in range(k):
+                kind = w.pick(H_KINDS, f"event{i}")
+                n = w.fresh_int(f"e{i}.node", 0, 254)
+                c = w.fresh_int(f"e{i}.child", 0, 254)
+                if kind == "save-tick":
+                    w.info["events"].append("tick")
+                    try:
+                        w.call(fs.timers[-1].fn)
+                    except Exception as exc:
+                        w.escaped(exc, "save tick raised")
+                    continue
+                if kind == "node-presentation":
+                    line = C.structured_line(w, [n, 255, 0, 0, 17], version)
+                elif kind == "child-presentation":
+                    line = C.structured_line(w, [n, c, 0, 0, 6], "t")
+                elif kind == "set":
+                    vt = w.fresh_int(f"e{i}.vt")
+                    w.assume_fast(C.one_of(w, vt, ok_types))
+                    line = C.structured_line(w, [n, c, 1, 0, vt], C.wire_payload(w, f"e{i}.v", 1, 1))
+                elif kind == "battery":
+                    line = C.structured_line(w, [n, 255, 3, 0, 0], w.fresh_int(f"e{i}.b", 0, 100))
+                else:
+                    line = C.structured_line(w, [255, 255, 3, 0, 3], "")
+                w.info["events"].append(line)
+                try:
+                    C.step_line(w, g, line)
+                except Exception as exc:
+                    w.escaped(exc, f"pump raised at event {i + 1} ({kind})")
+            try:
+                w.call(g.gw.stop)
+            except Exception as exc:
+                w.escaped(exc, "stop raised")
+            final = P.snapshot(g.gw.sensors)
+            fs.after_crash(False)
+            g2 = P.pgateway(w, version, fmt)
+            try:
+                w.call(g2.gw.tasks.persistence.safe_load_sensors)
+            except Exception as exc:
+                w.escaped(exc, "load at the next start raised")
+            w.check(w.eq(P.snapshot(g2.gw.sensors), final),
+                    "state after restart differs from the state at stop()")
+            w.goal("history-stop")
+    return fn
+
+
 def build(tier):
     P.contract()  # tabulated once here, inherited by every forked explorer
     q = tier == "quick"
@@ -152,6 +216,11 @@ def build(tier):
                 {"flavours": ["sync", "async"], "history": "start_persistence, child presentation, "
                  "stop()"}, goals=["restarted"],
                 doc="public API history: load + first tick, a change, stop(), restart"),
+        Harness("history-stop", history_stop(["1.4", "2.2"] if q else C.VERSIONS,
+                                             ["json"] if q else ["json", "pickle"], 3 if q else 4),
+                {"events": 3 if q else 4, "kinds": H_KINDS, "start": "empty gateway, no file",
+                 "end": "stop(), restart, load"}, goals=["history-stop"],
+                doc="bounded histories with save ticks anywhere, ended by stop(): nothing lost"),
     ]
     return {
         "harnesses": hs,
